@@ -1451,6 +1451,49 @@ for _n in ("__add__", "__radd__", "__sub__", "__rsub__", "__mul__", "__rmul__", 
     setattr(LazyAbs, _n, _lazy_bin(_n))
 
 
+class LazyRoot(LazyAbs):
+    """sqrt(x) whose atom is only allocated when the value enters arithmetic; comparisons between two
+    lazy roots (or with a scalar) are decided on the radicands, which needs no atom at all."""
+
+    __slots__ = ()
+
+    def force(self):
+        if self._f is None:
+            self._f = self.x.sqrt()
+        return self._f
+
+    def _rel(self, o, op):
+        if isinstance(o, LazyRoot):
+            return self.x._rel(o.x, op)
+        if isinstance(o, LazyAbs):
+            o = o.force()
+        if isinstance(o, (float, _np.floating)) and math.isinf(float(o)):
+            return bool(_OPS[op](0.0, float(o)))
+        o = Sym._co(o)
+        x = self.x
+        o2 = o * o
+        if op == "<":
+            return sym_and(o._rel(0, ">"), x._rel(o2, "<"))
+        if op == "<=":
+            return sym_and(o._rel(0, ">="), x._rel(o2, "<="))
+        if op == ">":
+            return sym_or(o._rel(0, "<"), x._rel(o2, ">"))
+        if op == ">=":
+            return sym_or(o._rel(0, "<="), x._rel(o2, ">="))
+        if op == "==":
+            return sym_and(o._rel(0, ">="), x._rel(o2, "=="))
+        return ~self._rel(o, "==")
+
+    def __abs__(s):
+        return s
+
+    def __float__(s):
+        return float(s.x) ** 0.5
+
+    def __repr__(s):
+        return "sqrt~(%r)" % (s.x,)
+
+
 def force(x):
     return x.force() if isinstance(x, LazyAbs) else x
 
